@@ -693,6 +693,7 @@ class Models:
             # feasible and has an objective function value below the target.
             if (
                 self._fun_val[k] <= options[Options.TARGET]
+                and pb.fun_last <= options[Options.TARGET]
                 and pb.maxcv(
                     self.interpolation.point(k),
                     self.cub_val[k, :],
